@@ -200,6 +200,17 @@ class MHLHistory:
 
         return all_paths
 
+    def recorded_path_kinds(self) -> Dict[str, bool]:
+        """maps every recorded path to whether its most recent record is a folder (True) or a file (False)"""
+        kinds = {}
+        for hash_list in self.hash_lists:
+            for media_hash in hash_list.media_hashes:
+                kinds[os.path.join(self.get_root_path(), media_hash.path)] = bool(media_hash.is_directory)
+        for child_history in self.child_histories:
+            kinds.update(child_history.recorded_path_kinds())
+
+        return kinds
+
     def set_of_directory_paths(self) -> Set[str]:
         all_paths = set()
         for hash_list in self.hash_lists:
